@@ -28,7 +28,7 @@ REGEXES = ['.*', 'a', '^b']
 OPS_Q = ['*', 'FULLY_CONNECTED', 'TANH']
 OPS_T = OPS_Q + ['EMBEDDING_LOOKUP']
 QUERY_OPS = ['FULLY_CONNECTED', 'TANH', 'EMBEDDING_LOOKUP', 'CONV_2D', 'INPUT']
-QUERY_SCOPES = ['a;', 'b;', 'ab;', 'c;', '']
+QUERY_SCOPES = ['a;', 'b;', 'ab;', 'ba;', 'c;', '']
 
 
 def load_recipes():
